@@ -179,4 +179,72 @@ def truncFn (nf1 nf2 : Nat) (enc1 enc2 : Bool) (comp : Bytes) : Bytes :=
   else if nf1 = nf2 then comp
   else (cutBefore comp (nf2 - 1)).getD comp
 
+/-! ### `_lower!` index fields (negative field numbers `-(idx+2)` in `Spec.Fields`) -/
+
+/-- one entry of `Spec.Fields`: record field `idx`, case-folded when `lower` (`_lower!`) -/
+structure Fld where
+  idx : Nat
+  lower : Bool
+  deriving DecidableEq, Repr
+
+/-- `ascii.ToLower` -/
+def toLowerB (c : UInt8) : UInt8 := if 65 ≤ c ∧ c ≤ 90 then c + 32 else c
+
+def packString : UInt8 := 4
+
+/-- `PackedToLower`: `str.ToLower` of the whole packed value when it is a packed string -/
+def packedToLower : Bytes → Bytes
+  | [] => []
+  | t :: r => if t = packString then (t :: r).map toLowerB else t :: r
+
+/-- `str.CmpLower`: compare `ascii.ToLower` of each byte, then the lengths -/
+def cmpLower : Bytes → Bytes → Ordering
+  | [], [] => .eq
+  | [], _ :: _ => .lt
+  | _ :: _, [] => .gt
+  | a :: as, b :: bs =>
+    if toLowerB a < toLowerB b then .lt else if toLowerB b < toLowerB a then .gt else cmpLower as bs
+
+/-- `PackedCmpLower`: `CmpLower` when both are packed strings, else `strings.Compare` -/
+def packedCmpLower (s1 s2 : Bytes) : Ordering :=
+  match s1, s2 with
+  | t1 :: _, t2 :: _ => if t1 = packString ∧ t2 = packString then cmpLower s1 s2 else cmpB s1 s2
+  | _, _ => cmpB s1 s2
+
+/-- `ixkey.getRaw(rec, field)` incl. the `_lower!` case -/
+def getL (rec : List Bytes) (f : Fld) : Bytes :=
+  if f.lower then packedToLower (getRaw rec f.idx) else getRaw rec f.idx
+
+/-- `Spec.Key` with `_lower!` fields (`fieldLen` looks at the raw field, `getRaw` folds it) -/
+def keyL (fields : List Fld) (fields2 : List Nat) (rec : List Bytes) : Bytes :=
+  match fields with
+  | [] => []
+  | f0 :: _ =>
+    if !encodes (fields.map (·.idx)) fields2 then getL rec f0
+    else
+      if (fields.map fun f => getRaw rec f.idx).all (· = []) then
+        if fields2 = [] then []
+        else (fields.flatMap fun _ => sep) ++ joinEnc (fields2.map (getRaw rec))
+      else joinEnc (trimEmpty (fields.map (getL rec)))
+
+/-- one iteration of the loop of `Spec.Compare` -/
+def cmpFld (f : Fld) (r1 r2 : List Bytes) : Ordering :=
+  if f.lower then packedCmpLower (getRaw r1 f.idx) (getRaw r2 f.idx)
+  else cmpB (getRaw r1 f.idx) (getRaw r2 f.idx)
+
+def cmpFlds : List Fld → List Bytes → List Bytes → Ordering
+  | [], _, _ => .eq
+  | f :: fs, r1, r2 => match cmpFld f r1 r2 with
+    | .eq => cmpFlds fs r1 r2
+    | o => o
+
+/-- `Spec.Compare` with `_lower!` fields (Fields2 are never `_lower!`) -/
+def compareL (fields : List Fld) (fields2 : List Nat) (r1 r2 : List Bytes) : Ordering :=
+  match cmpFlds fields r1 r2 with
+  | .eq =>
+    if (fields.map fun f => getRaw r1 f.idx).all (· = []) && (fields.map fun f => getRaw r2 f.idx).all (· = []) then
+      cmpFields (fields2.map (getRaw r1)) (fields2.map (getRaw r2))
+    else .eq
+  | o => o
+
 end Gsu.Ixkey
